@@ -85,8 +85,8 @@ func init() {
 	registerProp(&Property{
 		ID: "C10", Kind: "necessary structural clauses",
 		Tech:  "SSA dominance lint on cut values, normaliser-order rule, loop-cap recogniser, balancing-window recogniser, ownership table",
-		Rules: []string{"RECOMP-1", "ORD-4", "CAP-1", "BAL-1", "OWN-1"},
-		Explanation: "RECOMP-1: cut values are a function of the current tree only (no read of a stale value); ORD-4: the top band is 0 after balancing; CAP-1: the pivot loop honours the documented budget; OWN-1: Layer is not touched after phase 2; " +
+		Rules: []string{"RECOMP-1", "OPT-1", "ORD-4", "CAP-1", "BAL-1", "OWN-1"},
+		Explanation: "RECOMP-1: cut values are a function of the current tree only (no read of a stale value); OPT-1: the pivot loop can stop (budget aside) only when a complete scan of the edge list finds no tree edge with negative cut value - the optimality criterion - and the enter edge is a strict minimum-slack candidate of a complete scan; ORD-4: the top band is 0 after balancing; CAP-1: the pivot loop honours the documented budget; OWN-1: Layer is not touched after phase 2; " +
 			"BAL-1: balancing moves only nodes whose move leaves total length unchanged (in-degree = out-degree) and only inside their feasible window. Not decided: optimality and feasibility of the pivot sequence; contiguity of bands.",
 		Assumptions: []string{"clauses are necessary, not sufficient"},
 	})
